@@ -2,7 +2,7 @@
    pauli_products_map comes from QPG.conjtab (regenerated from /repo). *)
 From Coq Require Import ZArith NArith List Bool.
 From QP Require Import Cx Zw Apply Local Gates.
-From QPM Require Import Pauli CompBasis Grouping GF2 Operator OperatorExt Expect OperatorAdj SparseExport TransAmp.
+From QPM Require Import Pauli CompBasis Grouping GF2 Operator OperatorExt Expect OperatorAdj SparseExport TransAmp LabelString.
 From QPG Require Import conjtab.
 Import ListNotations.
 
@@ -171,3 +171,27 @@ Example transition_amp_example :
   tamp Zw zw0 zw1 (zw_opp zwi) zw_opp zw_add zw_mul o 2%N 0%N = mkZw 0 0 2 0
   /\ tamp Zw zw0 zw1 (zw_opp zwi) zw_opp zw_add zw_mul o 3%N 3%N = zw1.
 Proof. vm_compute. split; reflexivity. Qed.
+
+(* string form (pauli.py: PauliLabel.__str__ and _parse_pauli_label_str, model LabelString.v at character level: the re.sub
+   dropping white space after X / Y / Z, split(), the "I" form, ([XYZ])([0-9]+), int(), the duplicate test): the string form
+   of every label - any number of factors on distinct qubits, indices of any size, in any listing order - parses back to
+   exactly that label *)
+Theorem string_form_round_trips :
+  forall l : list (N * sp), NoDup (map fst l) -> LabelString.parse (LabelString.show l) = Some l.
+Proof. exact parse_show. Qed.
+Print Assumptions string_form_round_trips.
+
+(* the intern table of PauliLabel.__new__ is keyed by the string form: two labels with the same key are the same label *)
+Theorem string_form_separates_labels :
+  forall l1 l2 : list (N * sp), NoDup (map fst l1) -> NoDup (map fst l2) ->
+  LabelString.show l1 = LabelString.show l2 -> l1 = l2.
+Proof. exact show_injective. Qed.
+Print Assumptions string_form_separates_labels.
+
+(* whatever the parser accepts is a label with one factor per qubit *)
+Theorem parser_accepts_only_labels_on_distinct_qubits :
+  forall s r, LabelString.parse s = Some r -> NoDup (map fst r).
+Proof. exact parse_nodup. Qed.
+Print Assumptions parser_accepts_only_labels_on_distinct_qubits.
+
+(* non-vacuity: LabelString.string_form_examples (documented accepted / rejected forms, evaluated by vm_compute) *)
